@@ -72,6 +72,8 @@ type grpScenario struct {
 	DClose    bool              `json:"dclose"`   // every group is closed a second time after Close returned
 	NoNet     bool              `json:"nonet"`    // never end a call by the safety-net context cancel
 	DFKind    string            `json:"dfkind"`   // how the start of a claim is failed: notleader (default) | conn
+	LookupFail   bool           `json:"lookupfail"`   // once the coordinator is down, coordinator lookups are answered with an error too
+	ReturnErrors bool           `json:"returnerrors"` // Consumer.Return.Errors
 	Clients   []grpClientScript `json:"clients"`
 }
 
@@ -288,18 +290,33 @@ func (s *grpSim) handle(req *request) (encoderWithHeader, bool) {
 	switch r := req.body.(type) {
 	case *MetadataRequest:
 		res := &MetadataResponse{Version: r.Version}
-		res.AddBroker(s.addr(0), 1)
-		res.AddBroker(s.addr(1), 2)
 		s.mu.Lock()
 		np := s.np
+		gone := s.down[0]
 		s.mu.Unlock()
+		if !gone {
+			res.AddBroker(s.addr(0), 1)
+		}
+		res.AddBroker(s.addr(1), 2)
 		for p := 0; p < np; p++ {
 			res.AddTopicPartition(grpTopic, int32(p), 2, []int32{2}, []int32{2}, nil, ErrNoError)
 		}
 		return res, false
 	case *FindCoordinatorRequest:
+		s.mu.Lock()
+		lost := s.down[0] && s.sc.LookupFail
+		s.mu.Unlock()
+		if lost {
+			return &FindCoordinatorResponse{Version: r.Version, Err: ErrConsumerCoordinatorNotAvailable}, false
+		}
 		return &FindCoordinatorResponse{Version: r.Version, Coordinator: &Broker{id: 1, addr: s.addr(0)}}, false
 	case *ConsumerMetadataRequest:
+		s.mu.Lock()
+		lost := s.down[0] && s.sc.LookupFail
+		s.mu.Unlock()
+		if lost {
+			return &ConsumerMetadataResponse{Err: ErrConsumerCoordinatorNotAvailable}, false
+		}
 		host, port := grpHostPort(s.addr(0))
 		return &ConsumerMetadataResponse{Coordinator: &Broker{id: 1, addr: s.addr(0)}, CoordinatorID: 1, CoordinatorHost: host, CoordinatorPort: port}, false
 	case *OffsetRequest:
@@ -1053,7 +1070,7 @@ func grpConfig(sc *grpScenario, name string) *Config {
 	conf := NewConfig()
 	conf.Version = V0_10_2_0
 	conf.ClientID = name
-	conf.Consumer.Return.Errors = false
+	conf.Consumer.Return.Errors = sc.ReturnErrors
 	conf.Consumer.Offsets.Initial = int64(sc.Initial)
 	conf.Consumer.Offsets.AutoCommit.Enable = sc.Auto != "off"
 	conf.Consumer.Offsets.AutoCommit.Interval = 15 * time.Millisecond
@@ -1074,6 +1091,9 @@ func grpConfig(sc *grpScenario, name string) *Config {
 	conf.Metadata.RefreshFrequency = 10 * time.Minute
 	if sc.GrowAt != "" {
 		conf.Metadata.RefreshFrequency = 25 * time.Millisecond
+	}
+	if sc.LookupFail {
+		conf.Metadata.RefreshFrequency = 25 * time.Millisecond // the dead coordinator drops out of the client's broker list quickly
 	}
 	if sc.Refresh0 {
 		conf.Metadata.RefreshFrequency = 0
@@ -1170,6 +1190,14 @@ func (c *grpClient) drive() {
 		err := grpGuard(c, "Close", func() error { return c.g.Close() })
 		r.rec.Ev("close_ret", kv{"c": c.name, "err": grpErrStr(err)})
 	}
+	// after Close returned (with or without an error) the Errors() channel must be closed: drain it to its end.
+	// A channel that stays open blocks here; the scenario watchdog then reports hang{what: "errors_not_closed"}.
+	c.setStage("errors_not_closed")
+	nerr := 0
+	for range c.g.Errors() {
+		nerr++
+	}
+	r.rec.Ev("errors_closed", kv{"c": c.name, "drained": nerr})
 	c.setStage("done")
 	r.sim.clientGone(c.name)
 }
